@@ -561,6 +561,7 @@ class Config:
         path.prog_temps = []
         path.prog_vals = []
         dead = False
+        start = len(path.pc)
         try:
             out = self.as_clause_list(path, self.spec_eval(path, fn, env))
         except Infeasible:
@@ -573,8 +574,10 @@ class Config:
             path.prog_temps = saved
             path.prog_vals = saved_vals
             if temps:
+                # only the occurrences added during this evaluation: the same term may already be in the path
+                # condition as a genuine assumption (e.g. a boolean local assumed true by an invariant)
                 ids = {id(t) for t in temps}
-                path.pc = [p for p in path.pc if id(p) not in ids]
+                path.pc = path.pc[:start] + [p for p in path.pc[start:] if id(p) not in ids]
         if dead:
             path.die_after = len(out)
         return out
